@@ -80,3 +80,82 @@ def reachable_under(body, forced, track_bools=True, max_states=20000):
                 reach.setdefault(n[0], n[1])
                 work.append(n)
     return reach
+
+
+import re as _re
+from facts import callee as _callee
+
+_VEC_NEW = _re.compile(r"^std::vec::Vec::<T>::(new|with_capacity)$|^<std::vec::Vec<T> as std::default::Default>::default$")
+_PUSH = _re.compile(r"^std::vec::Vec::<T, A>::(push|insert|append|extend_from_slice|resize|push_within_capacity)$|as std::iter::Extend<.*>>::extend$")
+_NEXT = _re.compile(r"as std::iter::Iterator>::next$")
+_READONLY = _re.compile(r"::(len|is_empty|iter|as_slice|first|last|get|contains)$")
+
+
+def empty_loop_forcing(body, reach):
+    """loops over a Vec that is created empty in this body and only filled at blocks outside `reach` cannot run:
+    returns {switch_block: forced_successor} for the `match iter.next()` of such loops"""
+    forced = {}
+    for bb, t in body.calls():
+        if "callee" not in t or not _VEC_NEW.search(_callee(t)):
+            continue
+        d = t["dest"]
+        if len(d) != 1:
+            continue
+        seen, consumers, ret = flow.forward_aliases(body, d[0], limit=80)
+        if ret:
+            continue
+        pushes, nexts, unknown = [], [], False
+        for (cb, ct, ai) in consumers:
+            c = _callee(ct)
+            if ai == 0 and _PUSH.search(c):
+                pushes.append(cb)
+            elif ai == 0 and _NEXT.search(c):
+                nexts.append((cb, ct))
+            elif _READONLY.search(c):
+                pass
+            else:
+                unknown = True
+        if unknown or not nexts:
+            continue
+        if any(p in reach for p in pushes):
+            continue
+        for (nb, nt) in nexts:
+            res = nt["dest"][0]
+            sw = nt.get("to")
+            hops = 0
+            while sw is not None and hops < 4:
+                b = body.blocks[sw]
+                tt = b["t"]
+                if tt["k"] == "switch":
+                    dl = tt["discr"][1][0] if tt["discr"][0] in ("c", "m") else None
+                    isd = any(s[0] == "=" and s[1] == [dl] and s[2][0] == "discr" and s[2][1][0] == res for s in b["s"])
+                    if isd:
+                        for v, x in tt["targets"]:
+                            if v == "0":
+                                forced[sw] = x
+                    break
+                if tt["k"] == "goto":
+                    sw = tt["to"]
+                    hops += 1
+                else:
+                    break
+    return forced
+
+
+def reachable_under_refined(body, forced, rounds=4):
+    """reachable_under + refinement by empty_loop_forcing to a fixed point"""
+    extra = {}
+
+    def f(b, bb):
+        r = forced(b, bb)
+        if r is not None:
+            return r
+        return extra.get(bb)
+    reach = reachable_under(body, f)
+    for _ in range(rounds):
+        e2 = empty_loop_forcing(body, reach)
+        if all(k in extra for k in e2):
+            break
+        extra.update(e2)
+        reach = reachable_under(body, f)
+    return reach
